@@ -25,6 +25,7 @@ func (p *ShTokenizer) ShAtom(quoting ShQuoting) *ShAtom {
 	mark := lexer.Mark()
 
 	if expr := p.parser.Expr(); expr != nil {
+		p.inWord = true
 		return &ShAtom{shtExpr, lexer.Since(mark), quoting, expr}
 	}
 
